@@ -76,6 +76,11 @@ def poll_fns(F, crates):
         sites += [(blk, t) for blk, t, c in local_poll_helper_calls(F, f)]
         if sites:
             out.append((f, sites))
+        elif (f.raw.get("sig") or {}).get("output", "").startswith("std::task::Poll<") and f.kind != "closure" and not any(f is l_ for l_ in find_poll_leaf(F)) and \
+                any(s_["k"] == "assign" and s_["rv"]["k"] == "agg" and s_["rv"].get("adt") == "std::task::Poll" and s_["rv"].get("variant") == "Pending" for _, s_ in b.iter_stmts()):
+            # a poll function (other than eyeball's audited poll leaf) that answers Pending without polling anything: whatever it registers the waker with is not an
+            # input this analysis knows; the typestate reports the Pending as not caused by an input
+            out.append((f, []))
     return out
 
 
